@@ -1,59 +1,57 @@
-//! Builds real rxRust pipelines from source / operator descriptions (local form),
-//! type-erased after every operator with `box_it()`.
-use crate::probe::Probe;
-use crate::sexp::Sexp;
-use crate::val::{Ev, Fn1, Fn2, Val};
-use rxrust::ops::box_it::CloneableBoxOp;
-use rxrust::prelude::*;
-use std::convert::Infallible;
-
-pub type Obs = CloneableBoxOp<'static, Val, i64>;
-
-fn lift<S>(s: S) -> Obs
-where
-  S: Observable<Val, Infallible, rxrust::ops::on_error_map::OnErrorMapObserver<rxrust::observer::BoxObserver<'static, Val, i64>, fn(Infallible) -> i64>>
-    + ObservableExt<Val, Infallible>
-    + Clone
-    + 'static,
-  S::Unsub: 'static,
-{
-  fn absurd(e: Infallible) -> i64 {
-    match e {}
-  }
-  s.on_error_map(absurd as fn(Infallible) -> i64).box_it()
-}
+//! Builds real rxRust pipelines from source / operator descriptions, type-erased after
+//! every operator with `box_it()`.  One macro body instantiated for the local form
+//! (`Subject`, `Subscriber`, `CloneableBoxOp`) and the thread-safe form
+//! (`SubjectThreads`, `SubscriberThreads`, `CloneableBoxOpThreads`, `_threads` operators).
 
 pub const AVG_SCALE: f64 = 2520.0;
 
+macro_rules! builders {
+  ($m:ident, $obs:ty, $subject:ty, $subscriber:ident, $boxobs:ty,
+   $merge:ident, $zip:ident, $combine_latest:ident, $with_latest_from:ident,
+   $take_until:ident, $skip_until:ident, $sample:ident) => {
+pub mod $m {
+use crate::probe::Probe;
+use crate::sexp::Sexp;
+use crate::val::{Ev, Fn1, Fn2, Val};
+use super::AVG_SCALE;
+use rxrust::prelude::*;
+use std::convert::Infallible;
+
+pub type Obs = $obs;
+pub type Subj = $subject;
+
+fn absurd(e: Infallible) -> i64 {
+  match e {}
+}
 /// A basic source (model: `src`, `src_script`).
 pub fn build_src(s: &Sexp) -> Obs {
   let a = s.args();
   match s.head() {
-    "of" => lift(observable::of(Val::parse(&a[0]))),
-    "of_some" => lift(observable::of_option(Some(Val::parse(&a[0])))),
-    "of_none" => lift(observable::of_option(None::<Val>)),
+    "of" => observable::of(Val::parse(&a[0])).on_error_map(absurd as fn(Infallible) -> i64).box_it(),
+    "of_some" => observable::of_option(Some(Val::parse(&a[0]))).on_error_map(absurd as fn(Infallible) -> i64).box_it(),
+    "of_none" => observable::of_option(None::<Val>).on_error_map(absurd as fn(Infallible) -> i64).box_it(),
     "of_ok" => observable::of_result(Ok::<Val, i64>(Val::parse(&a[0]))).box_it(),
     "of_err" => observable::of_result(Err::<Val, i64>(a[0].int())).box_it(),
     "of_fn" => {
       let v = Val::parse(&a[0]);
-      lift(observable::of_fn(move || v))
+      observable::of_fn(move || v).on_error_map(absurd as fn(Infallible) -> i64).box_it()
     }
     "start" => {
       let v = Val::parse(&a[0]);
-      lift(observable::start(move || v))
+      observable::start(move || v).on_error_map(absurd as fn(Infallible) -> i64).box_it()
     }
     "from_iter" => {
       let l: Vec<Val> = a.iter().map(Val::parse).collect();
-      lift(observable::from_iter(l))
+      observable::from_iter(l).on_error_map(absurd as fn(Infallible) -> i64).box_it()
     }
-    "repeat" => lift(observable::repeat(Val::parse(&a[0]), a[1].usize())),
-    "empty" => lift(observable::empty()),
-    "never" => lift(observable::never().map(|_: ()| Val::U)),
+    "repeat" => observable::repeat(Val::parse(&a[0]), a[1].usize()).on_error_map(absurd as fn(Infallible) -> i64).box_it(),
+    "empty" => ObservableExt::<Val, Infallible>::on_error_map(observable::empty(), absurd as fn(Infallible) -> i64).box_it(),
+    "never" => observable::never().map(|_: ()| Val::U).on_error_map(absurd as fn(Infallible) -> i64).box_it(),
     "throw" => observable::throw(a[0].int()).map(|_: ()| Val::U).box_it(),
     "create" => {
       let calls: Vec<Ev> = a.iter().map(Ev::parse).collect();
       observable::create(
-        move |mut subscriber: Subscriber<rxrust::observer::BoxObserver<'static, Val, i64>>| {
+        move |mut subscriber: $subscriber<$boxobs>| {
           for c in calls {
             match c {
               Ev::Next(v) => subscriber.next(v),
@@ -183,7 +181,7 @@ pub fn run_chain(body: &[Sexp]) -> String {
 /// every call issued through a fresh clone of the subject handle.
 pub fn run_hotchain(body: &[Sexp]) -> String {
   let calls: Vec<Ev> = body[0].args().iter().map(Ev::parse).collect();
-  let subject: Subject<'static, Val, i64> = Subject::default();
+  let subject: Subj = Subj::default();
   let obs = apply_uops(subject.clone().box_it(), body[1].args());
   let (probe, log) = Probe::new();
   let _sub = obs.actual_subscribe(probe);
@@ -196,3 +194,72 @@ pub fn run_hotchain(body: &[Sexp]) -> String {
   }
   crate::val::show_trace(&log.take())
 }
+
+/// Two-input combinators (model: `op2`, `step2`).  Results are mapped back into `Val`.
+pub fn apply_op2(name: &Sexp, a: Obs, b: Obs) -> Obs {
+  match name.head() {
+    "merge" => a.$merge(b).box_it(),
+    "zip" => a.$zip(b).map(|(x, y)| Val::P(Box::new(x), Box::new(y))).box_it(),
+    "combine_latest" => {
+      let f = Fn2::parse(&name.args()[0]);
+      // the crate only accepts binary operators returning the pair type (see the impl bounds)
+      a.$combine_latest(b, move |x: Val, y: Val| (f.apply(x, y.clone()), y))
+        .map(|(x, y)| Val::P(Box::new(x), Box::new(y)))
+        .box_it()
+    }
+    "with_latest_from" => a.$with_latest_from(b).map(|(x, y)| Val::P(Box::new(x), Box::new(y))).box_it(),
+    "take_until" => a.$take_until(b).box_it(),
+    "skip_until" => a.$skip_until(b).box_it(),
+    "sample" => a.$sample(b).box_it(),
+    "buffer" => a.buffer(b.map(|_| ())).map(Val::L).box_it(),
+    h => panic!("bad op2 {h}"),
+  }
+}
+
+pub fn emit(subject: &Subj, e: Ev) {
+  match e {
+    Ev::Next(v) => subject.clone().next(v),
+    Ev::Err(x) => subject.clone().error(x),
+    Ev::Done => subject.clone().complete(),
+  }
+}
+
+fn cold(script: &[Sexp]) -> Obs {
+  let mut l = vec![Sexp::Atom("create".into())];
+  l.extend_from_slice(script);
+  build_src(&Sexp::List(l))
+}
+
+/// (op2 OP (ina KIND EV...) (inb KIND EV...) (tl (a EV) (b EV) ...)) where KIND is hot or cold.
+/// Hot inputs are Subjects driven by the timeline; a cold input emits its script at subscription.
+pub fn run_op2(body: &[Sexp]) -> String {
+  let sa: Subj = Subj::default();
+  let sb: Subj = Subj::default();
+  let ina = &body[1];
+  let inb = &body[2];
+  let a: Obs = if ina.args()[0].atom() == "hot" { sa.clone().box_it() } else { cold(&ina.args()[1..]) };
+  let b: Obs = if inb.args()[0].atom() == "hot" { sb.clone().box_it() } else { cold(&inb.args()[1..]) };
+  let obs = apply_op2(&body[0], a, b);
+  let (probe, log) = Probe::new();
+  let _sub = obs.actual_subscribe(probe);
+  for st in body[3].args() {
+    let e = Ev::parse(&st.args()[0]);
+    match st.head() {
+      "a" => emit(&sa, e),
+      "b" => emit(&sb, e),
+      h => panic!("bad side {h}"),
+    }
+  }
+  crate::val::show_trace(&log.take())
+}
+} // mod
+}; // macro arm
+}
+
+builders!(local, rxrust::ops::box_it::CloneableBoxOp<'static, Val, i64>, Subject<'static, Val, i64>,
+  Subscriber, rxrust::observer::BoxObserver<'static, Val, i64>,
+  merge, zip, combine_latest, with_latest_from, take_until, skip_until, sample);
+builders!(threads, rxrust::ops::box_it::CloneableBoxOpThreads<Val, i64>, SubjectThreads<Val, i64>,
+  SubscriberThreads, rxrust::observer::BoxObserverThreads<Val, i64>,
+  merge_threads, zip_threads, combine_latest_threads, with_latest_from_threads, take_until_threads,
+  skip_until_threads, sample_threads);
